@@ -26,6 +26,22 @@ import (
 type Hex []byte
 
 func (h Hex) MarshalJSON() ([]byte, error) {
+	// Long data that is an exact repetition of a short pattern is written as "rep:<pattern hex>:<length>"
+	// so that cases with megabyte-long junk runs stay small in replay and evidence files.
+	if len(h) > 1024 {
+		for p := 1; p <= 64; p++ {
+			ok := true
+			for i := p; i < len(h); i++ {
+				if h[i] != h[i-p] {
+					ok = false
+					break
+				}
+			}
+			if ok {
+				return json.Marshal(fmt.Sprintf("rep:%s:%d", hex.EncodeToString(h[:p]), len(h)))
+			}
+		}
+	}
 	return json.Marshal(hex.EncodeToString(h))
 }
 
@@ -33,6 +49,26 @@ func (h *Hex) UnmarshalJSON(b []byte) error {
 	var s string
 	if err := json.Unmarshal(b, &s); err != nil {
 		return err
+	}
+	if strings.HasPrefix(s, "rep:") {
+		parts := strings.Split(s, ":")
+		if len(parts) != 3 {
+			return fmt.Errorf("bad rep encoding")
+		}
+		pat, err := hex.DecodeString(parts[1])
+		if err != nil || len(pat) == 0 {
+			return fmt.Errorf("bad rep pattern")
+		}
+		var n int
+		if _, err := fmt.Sscanf(parts[2], "%d", &n); err != nil || n < 0 || n > 1<<26 {
+			return fmt.Errorf("bad rep length")
+		}
+		out := make([]byte, n)
+		for i := range out {
+			out[i] = pat[i%len(pat)]
+		}
+		*h = out
+		return nil
 	}
 	d, err := hex.DecodeString(s)
 	if err != nil {
@@ -397,4 +433,76 @@ func (r *Rec) Replay(t *testing.T) {
 func HarnessBug(format string, args ...interface{}) {
 	fmt.Printf("HARNESS BUG: "+format+"\n", args...)
 	os.Exit(3)
+}
+
+// Par is a case made of several cases that are checked at the same time in separate goroutines.
+type Par[C any] struct {
+	Cases  []C `json:"concurrent_cases"`
+	Rounds int `json:"rounds"`
+}
+
+// ParallelProp builds a property that draws k cases and runs the (self-contained, oracle-carrying)
+// check of each of them concurrently, several rounds each, so that state shared between calls that
+// ought to be independent shows up as a violation of one of them.  A runtime abort (concurrent map
+// access) kills the process; the driver then reports the written-ahead case.
+func ParallelProp[C any](r *Rec, test string, gen func(*rapid.T) C, check func(C, *Obs) error, k int) func(*rapid.T) {
+	pcheck := func(p Par[C], o *Obs) error {
+		if len(p.Cases) == 0 {
+			o.Skip = true
+			return nil
+		}
+		rounds := p.Rounds
+		if rounds < 1 {
+			rounds = 1
+		}
+		// each case must hold on its own first (otherwise the failure is not about concurrency)
+		for i, c := range p.Cases {
+			oo := &Obs{}
+			if err := run(check, c, oo); err != nil {
+				o.Key = oo.Key
+				return fmt.Errorf("case %d fails on its own: %v", i, err)
+			}
+			if oo.Skip {
+				o.Skip = true
+				return nil
+			}
+		}
+		errs := make([]error, len(p.Cases))
+		keys := make([]string, len(p.Cases))
+		start := make(chan struct{})
+		var wg sync.WaitGroup
+		for i := range p.Cases {
+			wg.Add(1)
+			go func(i int) {
+				defer wg.Done()
+				<-start
+				for rd := 0; rd < rounds && errs[i] == nil; rd++ {
+					oo := &Obs{}
+					if err := run(check, p.Cases[i], oo); err != nil {
+						errs[i], keys[i] = err, oo.Key
+					}
+				}
+			}(i)
+		}
+		close(start)
+		wg.Wait()
+		for i, e := range errs {
+			if e != nil {
+				o.Key = "concurrent/" + keys[i]
+				return fmt.Errorf("case %d of %d holds when run alone but fails while the others run at the same time in other goroutines: %v", i, len(p.Cases), e)
+			}
+		}
+		o.NonTrivial = len(p.Cases) >= 2
+		o.Class(fmt.Sprintf("concurrent-%d", len(p.Cases)))
+		return nil
+	}
+	Register(r, test, pcheck)
+	return func(t *rapid.T) {
+		n := rapid.IntRange(2, k).Draw(t, "nConcurrent")
+		p := Par[C]{Rounds: rapid.IntRange(2, 6).Draw(t, "rounds")}
+		for i := 0; i < n; i++ {
+			p.Cases = append(p.Cases, gen(t))
+		}
+		Do(r, t, test, p, pcheck)
+	}
 }
